@@ -267,6 +267,38 @@ CONTRACTS.append(
              note="bounded-symbolic in the chain (<= 3 adapters); empty response body (json decoding is library code)"))
 
 
+def _delegates(verb):
+    """the verb method hands the connection's whole chain and the caller's arguments, untouched, to the root's
+    do_request exactly once and returns what it returns"""
+    def check(events, args, result):
+        calls = [e for e in events if e[0] == 'call' and e[1] == '_HttpConnImpl.do_request/abstract']
+        if len(calls) != 1:
+            return False
+        b, res = calls[0][2], calls[0][3]
+        me = args['self']
+        return (b['self'] is me.fields['conn_impl'] and b['adapters'] is me.fields['adapters'] and b['path'] is args['path']
+                and b['method'] == verb and b['params'] is args['params'] and b['data'] is args['data']
+                and b['headers'] is args['headers'] and b['raw_response'] is args['raw_response'] and result is res)
+    return check
+
+
+CONTRACTS.append(
+    Contract(M, '_HttpConnImpl.do_request', name='_HttpConnImpl.do_request/abstract', prop=PROP, spec_globals=G, level='sup',
+             params={}, ensures={}, raises={}, result_spec=T.opaque('response'),
+             note="call-site abstraction only (no clause): stands for the network round trip when the verb methods are verified"))
+CONTRACTS[-1].external = 'abstraction'      # used at call sites only, nothing to verify
+
+for _verb in ('get', 'post', 'put', 'delete', 'patch'):
+    CONTRACTS.append(
+        Contract(M, '_HttpConnBase.' + _verb, prop=PROP, spec_globals=G, level='top',
+                 params={'self': T.one_of(CONN(), CONN(PREFIX(), MARK())), 'path': T.str,
+                         'params': T.one_of(T.none, T.opaque('params', pytype=dict)),
+                         'data': T.one_of(T.none, T.opaque('data')), 'headers': T.one_of(T.none, T.dict({'Accept': T.str})),
+                         'raw_response': T.bool},
+                 event_clauses={'delegates_whole_chain_once': _delegates(_verb.upper())},
+                 raises={}, modifies=[]))
+
+
 def chain_path(adapters, path):
     """prefixes applied in list order: the first adapter's prefix ends up innermost"""
     p = path
@@ -288,7 +320,7 @@ def auth_headers(adapters):
 
 BOUNDED_SYMBOLIC = {'_HttpConnImpl.do_request/assembly': 2, '_HttpConnImpl.do_request/response': 3}
 
-USES = {}
+USES = {('_HttpConnBase.' + v): ['_HttpConnImpl.do_request/abstract'] for v in ('get', 'post', 'put', 'delete', 'patch')}
 
 ASSUMED_LIBRARY = [
     "base64.b64encode / urlencode / json.dumps are pure functions of their argument (uninterpreted) and do not mutate it; "
@@ -298,27 +330,6 @@ ASSUMED_LIBRARY = [
 
 
 # ---- syntactic obligations ------------------------------------------------------------
-def _verbs_delegate(world=None):
-    """get/post/put/delete/patch pass the whole chain and the caller's arguments, unchanged, to the root's do_request"""
-    import inspect
-    src = inspect.getsource(conn_http)
-    tree = ast.parse(src)
-    bad = []
-    found = 0
-    for cls in [n for n in tree.body if isinstance(n, ast.ClassDef) and n.name == '_HttpConnBase']:
-        for fn in [n for n in cls.body if isinstance(n, ast.FunctionDef)]:
-            if fn.name in ('get', 'post', 'put', 'delete', 'patch'):
-                found += 1
-                stmts = [s for s in fn.body if not (isinstance(s, ast.Expr) and isinstance(s.value, ast.Constant))]
-                want = (f"return self.conn_impl.do_request(self.adapters, path, '{fn.name.upper()}', params, data, "
-                        f"headers, raw_response)")
-                if len(stmts) != 1 or ast.unparse(stmts[0]) != want:
-                    bad.append((fn.name, fn.lineno, ast.unparse(stmts[-1]) if stmts else ''))
-    if found != 5:
-        return None, {'detail': f"{found} of 5 verb methods found"}
-    return not bad, {'mismatch': bad}
-
-
 def _responses_reversed(world=None):
     import inspect
     src = inspect.getsource(conn_http._HttpConnImpl.do_request)
@@ -334,7 +345,6 @@ def _responses_reversed(world=None):
 
 
 STATIC_OBLIGATIONS = {
-    'C17.verbs.delegate_whole_chain': (_verbs_delegate, 'top'),
     'C17.do_request.response_processors_reverse_order': (_responses_reversed, 'top'),
 }
 
